@@ -4,6 +4,8 @@ import (
 	"context"
 	"errors"
 	"fmt"
+	"sort"
+	"strings"
 	"time"
 
 	"github.com/sdcio/cache/proto/cachepb"
@@ -86,7 +88,14 @@ func (c *FCache) Modify(ctx context.Context, name string, opts *cache.Opts, dels
 	case "error", "empty", "early":
 		return ErrInjected
 	case "torn":
-		// a prefix of the deletes and writes is applied, then the call fails
+		// a prefix of the deletes and writes is applied, then the call fails. The SUT builds these lists by ranging
+		// over Go maps; sort them so that the torn prefix is a function of the content, not of the iteration order.
+		dels = append([][]string(nil), dels...)
+		sort.Slice(dels, func(i, j int) bool { return strings.Join(dels[i], ",") < strings.Join(dels[j], ",") })
+		upds = append([]*cache.Update(nil), upds...)
+		sort.Slice(upds, func(i, j int) bool {
+			return strings.Join(upds[i].GetPath(), ",") < strings.Join(upds[j].GetPath(), ",")
+		})
 		nd, nu := len(dels)/2, 0
 		if nd == len(dels) {
 			nu = len(upds) / 2
@@ -109,6 +118,10 @@ func (c *FCache) Read(ctx context.Context, name string, opts *cache.Opts, paths 
 		return nil
 	case "early":
 		r := c.Client.Read(ctx, name, opts, paths, period)
+		sort.SliceStable(r, func(i, j int) bool {
+			a, b := strings.Join(r[i].GetPath(), ",")+"|"+r[i].Owner(), strings.Join(r[j].GetPath(), ",")+"|"+r[j].Owner()
+			return a < b
+		})
 		return r[:len(r)/2]
 	}
 	return c.Client.Read(ctx, name, opts, paths, period)
